@@ -58,7 +58,7 @@ def run(ctx):
             cur['queries'].append({'q': st['q'], 'exp': exp})
             npairs += 1
             q = st['q']
-            for k in (q['sel'], 'w>0' if q['w'] else 'w=0', 'fill:' + q['fill'] if q['w'] else None,
+            for k in (q['sel'], 'two-calls' if q['sel2'] != 'none' else None, 'w>0' if q['w'] else 'w=0', 'fill:' + q['fill'] if q['w'] else None,
                       'gtag' if q['gtag'] else None, 'desc' if q['desc'] else None, 'limit' if q['limit'] or q['offset'] else None,
                       'slimit' if q['slimit'] else None, 'tag:' + q['tagop'], 'field:' + q['fop'],
                       'off' if q['off'] else None, 'rows>0' if exp else 'rows=0'):
@@ -70,6 +70,12 @@ def run(ctx):
     binary = ctx.go_build('iql')
     res, lines = ctx.replay(binary, cases, procs=min(vlib.NCPU, 12), timeout=1500)
     ctx.absorb(res, lines)
+    layouts = {}
+    for x in res:
+        lay = (x.get('extra') or {}).get('layout')
+        if lay is not None:
+            layouts[str(lay)] = layouts.get(str(lay), 0) + 1
+    ctx.extra_cov['datasets_per_storage_layout'] = layouts
     ctx.extra_cov['query_dataset_pairs'] = npairs
     ctx.extra_cov['datasets'] = len(cases)
     ctx.extra_cov['query_feature_counts'] = kinds
@@ -77,7 +83,7 @@ def run(ctx):
                 'with its queries; non-trivial = dataset with >= 2 points and at least one query returning rows, distinct by '
                 '(dataset, set of such queries)')
     ctx.assumptions += [
-        'claimed subset: SELECT v | count|sum|mean|min|max|first|last(v) FROM m WHERE time >= a AND time < b AND host =|!= x AND '
+        'claimed subset: SELECT v | f(v) | f(v), g(v) with f, g in count|sum|mean|min|max|first|last FROM m WHERE time >= a AND time < b AND host =|!= x AND '
         'v <cmp> k GROUP BY time(w[,off])[, host] fill(null|none|previous|<n>) ORDER BY time DESC LIMIT/OFFSET SLIMIT/SOFFSET; one '
         'integer field, one tag, <= 3 series x <= 6 points, two shards',
         'the order of raw rows of different series at the same timestamp is not defined: compared as multisets, and LIMIT/OFFSET '
@@ -86,6 +92,10 @@ def run(ctx):
         'SOFFSET only together with SLIMIT (both requirements are documented; without them results are documented as inconsistent)',
         'SLIMIT/SOFFSET count the series of the measurement that satisfy the tag predicate (ascending), with or without rows',
         'count() reports 0 for an empty window under fill(null); fill(previous) follows output order',
+        'storage layout is a concretisation chosen per dataset from the seed: all in cache / all in one TSM file per shard / older '
+        'values in TSM overwritten at the same timestamps in the cache / the same with the overwrites flushed (two overlapping TSM '
+        'files) / older values of part of the points in TSM and every point in the cache; the specification\'s dataset is the '
+        'last-write-wins content',
         'mean() is merged by the code from per-series/per-shard partial means weighted by their counts, not computed as one '
         'division: it is compared with relative tolerance 1e-12 against the exact rational sum/count; all other values exactly',
     ]
